@@ -29,7 +29,7 @@ def _mk(E, p, x):
     shape = p["shape"]
     D = len(shape)
     cls = nd.Histogram2D if D == 2 else nd.HistogramND
-    dt = int if p["kind"] == "int" else float
+    dt = p.get("dtype") or (int if p["kind"] == "int" else float)
     f = np.asarray(nested(x["f"], shape), dtype=dt)
     e2 = np.asarray(nested(x["q"], shape), dtype=dt)
     return cls([np.asarray(x["e"][k]) for k in range(D)], f, errors2=e2, axis_names=NAMES[:D], name="parent")
@@ -54,6 +54,10 @@ class C09Projection(Harness):
                             continue
                         yield (f"proj-S{'x'.join(map(str, shape))}-{by}-{''.join(map(str, axes))}",
                                dict(shape=list(shape), axes=list(axes), by=by, kind="real" if (sum(axes) % 2) else "int", chain=None))
+        # narrow integer parents: marginal sums may exceed the parent's own type (numpy's sum widens to int64)
+        for dt in ("int16", "int32"):
+            yield f"proj-S2x3-{dt}-0", dict(shape=[2, 3], axes=[0], by="index", kind="int", chain=None, dtype=dt)
+            yield f"proj-S2x2x2-{dt}-02", dict(shape=[2, 2, 2], axes=[0, 2], by="index", kind="int", chain=None, dtype=dt)
             if D >= 3:
                 for first in itertools.combinations(range(D), D - 1):
                     for second in range(D - 1):
@@ -64,8 +68,15 @@ class C09Projection(Harness):
 
     def declare(self, cx, p):
         shape = p["shape"]
-        return {"f": declare_cells(cx, "f", shape, p["kind"]), "q": declare_cells(cx, "q", shape, p["kind"]),
-                "e": [declare_edges(cx, f"e{k}_", shape[k]) for k in range(len(shape))]}
+        if p.get("dtype"):
+            lim = 2 ** (int(p["dtype"][3:]) - 1) - 1
+            n = 1
+            for s_ in shape:
+                n *= s_
+            return {"f": cx.ints("f", n, 0, lim), "q": cx.ints("q", n, 0, lim), "e": [declare_edges(cx, f"e{k}_", shape[k]) for k in range(len(shape))]}
+        x = {"f": declare_cells(cx, "f", shape, p["kind"]), "q": declare_cells(cx, "q", shape, p["kind"]),
+             "e": [declare_edges(cx, f"e{k}_", shape[k]) for k in range(len(shape))]}
+        return x
 
     def drive(self, E, p, x):
         h = _mk(E, p, x)
